@@ -1,7 +1,7 @@
 #!/usr/bin/env python3
 """replay/run.py <oracle-spec> <seed>        — search a concrete failing input on the REAL code (rebuilt from /repo now)
    replay/run.py --input '<json>'            — re-execute a recorded input; exit 1 if it still fails
-oracle-spec: "evm:<function>"."""
+oracle-spec: "evm:<function>" | "evm_mem:<function>"."""
 import json, os, subprocess, sys
 V = os.path.dirname(os.path.dirname(os.path.abspath(__file__)))
 TARGET = os.path.join(V, ".work", "replay-target")
@@ -20,6 +20,14 @@ def build(crate):
 def main():
     if sys.argv[1] == "--input":
         inp = json.loads(sys.argv[2])
+        if inp.get("crate") == "evm_mem":
+            # re-run the recorded search prefix (same seed, up to the failing iteration) on the current tree
+            binp, err = build("evm_mem")
+            if not binp:
+                print(json.dumps({"error": err})); sys.exit(2)
+            r = subprocess.run([binp, inp["function"], str(inp["seed"]), str(inp["iteration"])], stdout=subprocess.PIPE, text=True)
+            print(r.stdout.strip())
+            sys.exit(1 if json.loads(r.stdout).get("failing_input") else 0)
         binp, err = build("evm")
         if not binp:
             print(json.dumps({"error": err})); sys.exit(2)
